@@ -142,12 +142,47 @@ static bool prog_exempt(program_t *p) {
   return false;
 }
 static long master_exempt = 0;
+// ---- C04 monitors: evaluated at every instruction
+static long c04_monitor = 0;
+static long c04_reported = 0;
+static void c04_report(const char *what, long have, long limit) {
+  if (c04_reported++ > 20) return;
+  ev("V C04.%s have=%ld limit=%ld prog=%s", what, have, limit, current_prog && current_prog->name ? current_prog->name : "?");
+}
+extern "C" {
+#include "lpc/buffer.h"
+}
+static void c04_check() {
+  long depth = csp - control_stack + 1;
+  if (depth > CONFIG_INT(__MAX_CALL_DEPTH__)) c04_report("depth", depth, CONFIG_INT(__MAX_CALL_DEPTH__));
+  if (sp >= end_of_stack + 5) c04_report("stack", sp - start_of_stack, end_of_stack - start_of_stack);
+  if (sp >= start_of_stack) {
+    svalue_t *v = sp;
+    switch (v->type) {
+    case T_STRING: {
+      long n = (long)SVALUE_STRLEN(v);
+      if (n > CONFIG_INT(__MAX_STRING_LENGTH__)) c04_report("size.string", n, CONFIG_INT(__MAX_STRING_LENGTH__));
+      break; }
+    case T_ARRAY:
+      if (v->u.arr && (long)v->u.arr->size > CONFIG_INT(__MAX_ARRAY_SIZE__)) c04_report("size.array", v->u.arr->size, CONFIG_INT(__MAX_ARRAY_SIZE__));
+      break;
+    case T_MAPPING:
+      if (v->u.map && (long)v->u.map->count > CONFIG_INT(__MAX_MAPPING_SIZE__)) c04_report("size.mapping", v->u.map->count, CONFIG_INT(__MAX_MAPPING_SIZE__));
+      break;
+    case T_BUFFER:
+      if (v->u.buf && (long)v->u.buf->size > CONFIG_INT(__MAX_BUFFER_SIZE__)) c04_report("size.buffer", v->u.buf->size, CONFIG_INT(__MAX_BUFFER_SIZE__));
+      break;
+    default: break;
+    }
+  }
+}
 static void instr_hook(int instruction) {
   (void)instruction;
   S.instr_total++;
   S.vns_frac += S.instr_cost_ns;
   if (S.vns_frac >= 1000) { S.vus += S.vns_frac / 1000; S.vns_frac %= 1000; }
   if (S.instr_total > S.max_instr) { ev("HANG instructions"); ev_flush(); _exit(75); }
+  if (c04_monitor) c04_check();
   if (S.timer_countdown >= 0 && S.timer_countdown-- == 0) {
     S.timer_countdown = -1;
     S.vus += S.timer_dt;
@@ -321,6 +356,7 @@ int sim_main_run(const Plan &plan) {
   S.stdin_tty = plan.optl("tty", 1) != 0;
   master_exempt = plan.optl("fault_exempt_master", 0);
   dump_users_every = plan.optl("dump_users", 0);
+  c04_monitor = plan.optl("c04_monitor", 0); c04_reported = 0;
   kernel_reset();
   __sanitizer_set_death_callback(on_death);
   signal(SIGALRM, on_alarm);
